@@ -1,13 +1,22 @@
 /-
 C07 — property theorems (only).
-Models: `Model/C07.lean` (integer grid core; coordinates, cast-first `coord2cell` imported by C05/C13/C16) and
+Models: `Model/C07.lean` (integer grid core; coordinates, cast-first `coord2cell` imported by C05/C13/C16),
 `Model/C07Kernel.lean` (`c_coord2cell` as written since /repo c8d188e: extent test on the floored doubles, then
-the casts; request-level wrappers). Lemmas: `Lemmas/C07Grid.lean`, `Lemmas/C07Coord.lean`, `Lemmas/C07Kernel.lean`.
+the casts; request-level wrappers), `Model/C07Round.lean` (the coordinate kernels with the rounding of every arithmetic
+result explicit; `round53` = IEEE double rounding on exact rationals), `Model/C07State.lean` (the Python layer:
+constructor defaults and guard, request shapes, the grid object as a state machine over its public operations).
+Lemmas: `Lemmas/C07Grid.lean`, `Lemmas/C07Coord.lean`, `Lemmas/C07Kernel.lean`, `Lemmas/C07Round.lean`.
 
-All theorems hold for every grid size (`nrows`, `ncols` arbitrary integers with the stated sign hypotheses), every
+Sections 1-11 hold for every grid size (`nrows`, `ncols` arbitrary integers with the stated sign hypotheses), every
 cell number (any integer), every point, over any ordered field with a floor function (`ℚ`, `ℝ`): exact arithmetic.
+Sections 12 and 17 are about *rounded* arithmetic: every `+ - * /` result passes through an operator `rnd` with relative
+error at most `u` (the standard model of floating point arithmetic); `round53` (nearest, ties to even, 53 bits, on `ℚ`)
+is proved to satisfy it with `u = 2^-53`, is executed by the driver, and is compared *exactly* with the doubles of the
+code on every finite point and every cell. Section 13 is over arbitrary operation lists on one grid object.
 Standing hypotheses, both inside the property's quantifier ("nrows, ncols >= 1, cell size over eight orders of
-magnitude"): `0 < g.csz`, `0 < g.ncols` (`0 < nrows` follows from the existence of a valid cell).
+magnitude"): `0 < g.csz`, `0 < g.ncols` (`0 < nrows` follows from the existence of a valid cell). Section 14 discharges
+`0 < ncols` from the constructor's own guard; section 15 shows that neither can be dropped in general (and that the
+round trip needs only `csz ≠ 0`); the harness probes the code at the excluded points (stream `excluded/`).
 
 CLAUSE -> THEOREMS -> WHAT REMAINS OUTSIDE
  1. "cells are numbered row by row from the top-left corner"
@@ -15,44 +24,66 @@ CLAUSE -> THEOREMS -> WHAT REMAINS OUTSIDE
       cell = row*ncols + col), cell2rowcol_zero, cell2rowcol_succ (row by row), cell2coord_top_left_order (row 0 is
       the top row, column 0 the left column).                                              outside: nothing.
  2. "cell2coord returns the centre of the cell"
-      cell2coord_eq, cell2coord_centre (midpoint of the footprint), cell2coord_inFootprint.
-      outside: the IEEE evaluation of xll+csz*(col+0.5) (3 roundings; compared bit for bit with the Float instance and
-      within max(1e-9 cell sizes, 16 ulp of the largest extent coordinate) of the exact instance).
+      cell2coord_eq, cell2coord_centre (midpoint of the footprint), cell2coord_inFootprint; with rounded arithmetic:
+      cell2coordR_error (within (3u+3u²+u³)(|ll| + csz(k+1/2)) of the exact centre), cell2coordR_id.
+      outside: that the doubles obey the standard model — `round53` does (round53_standard_model), and the code is
+      compared exactly with the `round53` instance on every cell; the bound itself is checked on the code's doubles.
  3. "coord2cell returns c for every point inside the footprint of cell c"
       coord2cellK_inside, coord2cellK_eq_iff, coord2cellK_lims (kernel as written); coord2cell_inside, coord2cell_eq_iff,
       coord2cell_extent (cast-first form); coord2cellK_eq_coord2cell (the two forms agree everywhere);
-      cellOfQuot_inside_of_approx (the clause survives any evaluation error of the quotients up to the margin by which
-      the point is inside: the quantifier's "away from edges by 1e-9 relative").
-      outside: that the double evaluation of (x-xll)/csz is within 1e-9 cell sizes of the exact quotient — measured by
-      the harness on every constrained point (max observed error is in the evidence), not proved.
+      cellOfQuot_inside_of_approx (the clause survives any evaluation error of the quotients up to the margin);
+      quotientsR_error (that error IS at most (2u+u²)|q| with rounded arithmetic), coord2cellR_inside,
+      coord2cell_double_inside (u = 2^-53, margin 1e-9 cell sizes, |q| <= 2^21: the quantifier's numbers), coord2cellR_id.
+      outside: as 2 (exact comparison with the `round53` instance on every finite point, edges included).
  4. "and -1 for every point outside the grid extent" (4 sides and diagonals, just outside to far away)
       coord2cellK_outside, coord2cellK_lims (= -1 exactly off xlim x ylim), coord2cell_outside,
-      coord2cell_eq_neg_one_iff, cellOfQuot_outside_of_approx.          outside: as 3; NaN/inf points (not in the
-      quantifier; the Float instance of the kernel-as-written model sends them to -1 like the code, compared).
+      coord2cell_eq_neg_one_iff, cellOfQuot_outside_of_approx, coord2cellR_outside, coord2cell_double_outside.
+      outside: as 3; NaN/inf points (not in the quantifier; the Float instance sends them to -1 like the code, compared).
  5. "so that coord2cell(cell2coord(c)) = c for every valid cell"
-      coord2cellK_cell2coord, coord2cell_cell2coord, coord2cell_axes.        outside: rounding of the centre (as 2).
+      coord2cellK_cell2coord, coord2cell_cell2coord, coord2cell_axes; coord2cell_cell2coord_of_ne_zero (only csz ≠ 0);
+      with BOTH kernels rounded: roundtripR (accumulated error below half a cell: rtBudget u (|ll|/csz + n) < 1/2),
+      roundtrip_double (u = 2^-53: every grid with |ll|/csz + n <= 2^48); constructed_roundtrip; history_roundtrip.
+      outside: as 2.
  6. "cell2rowcol and neighbours agree with that numbering (symmetric, positions mirror, off-grid neighbours -1)"
       neighbours_spec (entry k = cell at (row+k/3-1, col+k%3-1) or -1; 9 entries; each non-flag entry valid and with
       that (row, col)), neighbours_symmetric (mirror 8-k), neighbours_not_self.            outside: nothing.
  7. "invalid cell numbers are flagged (-1, NaN or an error) rather than mapped to a cell"
       invalid_cell_flagged (every integer outside 0..nrows*ncols-1), valid_cell_not_flagged (only those),
-      coord2cellK_valid_or_flag / coord2cell_valid_or_flag (coord2cell never invents a cell number).
+      coord2cellK_valid_or_flag / coord2cell_valid_or_flag (coord2cell never invents a cell number), history_rejected
+      (a rejected call answers with the error and leaves the object unchanged, after any history).
       outside: numpy's conversion of Python integers that do not fit int64 (refused or wrapped to a negative number;
       observed flagged-or-error by the oracle, not modelled).
  8. observables `Grid.xvalues`, `Grid.yvalues` (and xlim / ylim)
-      xvalues_eq, yvalues_eq, coord2cell_axes, coord2cellK_lims.                          outside: rounding (as 2).
+      xvalues_eq, yvalues_eq, coord2cell_axes, coord2cellK_lims, centreR_mono (the computed centres are monotone in the
+      column / row-from-below for any monotone rounding).                                  outside: as 2.
  9. vectorised entry points (glue: atleast_1d / atleast_2d, one kernel entry per requested element)
-      grid_requests_elementwise (entry i is answered on its own, whatever the length / order / other entries).
-      outside: numpy dtype conversion of the request; shape validation of malformed requests (C05).
+      grid_requests_elementwise (entry i is answered on its own, whatever the length / order / other entries),
+      request_shapes (which shapes are answered — scalar / 1-d cells, a pair / [n, 2] points — and that every other shape
+      is a ValueError).        outside: numpy dtype conversion of the request (floats truncated to int64); what the code
+      does with a request of another shape is outside the quantifier (compared with the model for the evidence only).
 10. the finding fixed in a909179 (truncation toward zero), kept as theorems about the pinned kernel
       coord2cellTrunc_eq_of_ge, coord2cellTrunc_left_strip, coord2cellTrunc_bottom_strip.
 11. the exact instances the driver executes are the ones of the theorems: truncRat_eq_fieldTrunc, floorRat_eq_fieldFloor.
-State histories (re-assigned geometry attributes, clones, pickles, edited arrays) are not a theorem matter: the model
-is a pure function of the geometry the grid has at the time of the call; that the code reads that geometry, and owns
-no state between calls, is checked by the history streams of harness/c07.py.
+12. "for any grid geometry" — however the object got it: the grid object is a state machine over its public operations
+      (re-assignment of the five attributes, clone / deepcopy / pickle, the five kinds of calls, rejected calls)
+      step_keeps_state (calls, rejected calls and copies write nothing), finalGeom_eq_mutators, run_answer (answer i is
+      the answer of a fresh object with the attributes the assignments before i produce), run_append, run_length,
+      history_rejected, history_roundtrip.
+      outside: that the code has no state beyond the five attributes — the harness sends every call history to the
+      model's `run` and compares all answers and the final attributes; caller-side edits of returned / input arrays and
+      a second live grid object are harness streams only.
+13. constructor `Grid(name, ncols, nrows=None, cellsize=1., xllcorner=0, yllcorner=0)`
+      mkGrid_default, mkGrid_ok_iff (refuses exactly negative dimensions), mkGrid_valid_pos (a constructed grid with a
+      valid cell has ncols, nrows > 0: discharges the standing hypothesis), constructed_roundtrip.
+      outside: np.int64() conversion of non-integer arguments; MemoryError for grids that cannot be allocated.
+14. the hypotheses are needed: ncols_pos_needed, csz_pos_needed (counterexamples). The code is run at the excluded points
+      (cell size <= 0, zero / negative dimensions) and compared with the Float model for the evidence only: the property
+      says nothing there, so a difference is recorded, never an alarm.
 -/
 import HydroVerif.Lemmas.C07Coord
 import HydroVerif.Lemmas.C07Kernel
+import HydroVerif.Lemmas.C07Round
+import HydroVerif.Model.C07State
 import Mathlib.Data.Rat.Floor
 
 set_option linter.unusedSectionVars false
@@ -602,6 +633,306 @@ theorem grid_requests_elementwise (g : Geom α) (cells : List Int) (pts : List (
 /-- the exact `floor` executed by the driver at `Rat` is the one of the theorems -/
 theorem floorRat_eq_fieldFloor : (floorRat : FloorNum ℚ) = (fieldFloor : FloorNum ℚ) := rfl
 
+
+/-! ### 12. rounding: the clauses under the standard model of floating point arithmetic -/
+
+/-- **the hypothesis of the robustness theorems, proved.** With every arithmetic result rounded with relative error
+at most `u`, each quotient the kernel floors is within `(2u + u²)·|q|` of the exact quotient `q` -/
+theorem quotientsR_error {rnd : α → α} {u : α} (hr : RelErr rnd u) (hu : 0 ≤ u) (g : Geom α) (x y : α) :
+    |(quotientsR rnd g x y).1 - (quotients g x y).1| ≤ quotBudget u * |(quotients g x y).1| ∧
+    |(quotientsR rnd g x y).2 - (quotients g x y).2| ≤ quotBudget u * |(quotients g x y).2| :=
+  ⟨quot_err hr hu _ _, quot_err hr hu _ _⟩
+
+/-- inside clause with rounded arithmetic: a point at least `δ` cell sizes inside the footprint of the valid cell
+`c` is mapped to `c`, for every `δ` that covers the rounding budget of the two quotients -/
+theorem coord2cellR_inside {rnd : α → α} {u : α} (hr : RelErr rnd u) (hu : 0 ≤ u) {g : Geom α}
+    (hcsz : 0 < g.csz) (hc : 0 < g.ncols) {c : Int} (hv : validCell g.nrows g.ncols c = true) {x y δ : α}
+    (hδx : quotBudget u * |(quotients g x y).1| ≤ δ) (hδy : quotBudget u * |(quotients g x y).2| ≤ δ)
+    (hin : cellLeft g c + δ * g.csz ≤ x ∧ x + δ * g.csz < cellRight g c ∧
+      cellBottom g c + δ * g.csz ≤ y ∧ y + δ * g.csz < cellTop g c) :
+    coord2cellR rnd g x y = c :=
+  cellOfQuot_inside_of_approx hcsz hc hv ((quotientsR_error hr hu g x y).1.trans hδx)
+    ((quotientsR_error hr hu g x y).2.trans hδy) hin
+
+/-- outside clause with rounded arithmetic: a point at least `δ` cell sizes outside the extent, on any side, is
+mapped to `-1` -/
+theorem coord2cellR_outside {rnd : α → α} {u : α} (hr : RelErr rnd u) (hu : 0 ≤ u) {g : Geom α}
+    (hcsz : 0 < g.csz) {x y δ : α}
+    (hδx : quotBudget u * |(quotients g x y).1| ≤ δ) (hδy : quotBudget u * |(quotients g x y).2| ≤ δ)
+    (hout : x + δ * g.csz < g.xll ∨ g.xll + (g.ncols : α) * g.csz + δ * g.csz ≤ x ∨
+      y + δ * g.csz < g.yll ∨ g.yll + (g.nrows : α) * g.csz + δ * g.csz ≤ y) :
+    coord2cellR rnd g x y = -1 :=
+  cellOfQuot_outside_of_approx hcsz ((quotientsR_error hr hu g x y).1.trans hδx)
+    ((quotientsR_error hr hu g x y).2.trans hδy) hout
+
+/-- the centre computed with rounded arithmetic is within `(3u + 3u² + u³)(|ll| + csz·(k + 1/2))` of the exact
+centre, in both directions -/
+theorem cell2coordR_error {rnd : α → α} {u : α} (hr : RelErr rnd u) (hu : 0 ≤ u) {g : Geom α} {c : Int}
+    (hv : validCell g.nrows g.ncols c = true) :
+    ∃ x' y' x y, cell2coordR rnd g c = some (x', y') ∧ cell2coord g c = some (x, y) ∧
+      |x' - x| ≤ centreBudget u * (|g.xll| + |g.csz| * |(colOf g.ncols c : α) + 1 / 2|) ∧
+      |y' - y| ≤ centreBudget u * (|g.yll| + |g.csz| * |((g.nrows - 1 - rowOf g.ncols c : Int) : α) + 1 / 2|) := by
+  refine ⟨_, _, _, _, by unfold cell2coordR; rw [if_pos hv], cell2coord_eq hv, ?_, ?_⟩
+  · have := centre_err hr hu g.xll g.csz ((colOf g.ncols c : α) + 1 / 2)
+    simpa [getcoordR, centreR] using this
+  · have := centre_err hr hu g.yll g.csz (((g.nrows - 1 - rowOf g.ncols c : Int) : α) + 1 / 2)
+    simpa [getcoordR, centreR] using this
+
+/-- **round trip with rounded arithmetic**: `coord2cell(cell2coord c) = c` for every valid cell, with every
+arithmetic result of both kernels rounded, as long as the grid is not so large / so far from the origin that the
+accumulated rounding reaches half a cell: `rtBudget u · (|ll|/csz + n) < 1/2` on both axes
+(`rtBudget u ≈ 5u`; for doubles, `u = 2^-53`: any grid with `|ll|/csz + n ≤ 2^48`) -/
+theorem roundtripR {rnd : α → α} {u : α} (hr : RelErr rnd u) (hu : 0 ≤ u) {g : Geom α}
+    (hcsz : 0 < g.csz) (hc : 0 < g.ncols) {c : Int} (hv : validCell g.nrows g.ncols c = true)
+    (hX : rtBudget u * (|g.xll| / g.csz + (g.ncols : α)) < 1 / 2)
+    (hY : rtBudget u * (|g.yll| / g.csz + (g.nrows : α)) < 1 / 2) :
+    ∃ x y, cell2coordR rnd g c = some (x, y) ∧ coord2cellR rnd g x y = c := by
+  obtain ⟨hr0, hr1, hc0, hc1, hidx⟩ := valid_rowcol hc hv
+  refine ⟨_, _, by unfold cell2coordR; rw [if_pos hv], ?_⟩
+  have hB := rtBudget_nonneg hu
+  have hx0 : (0 : α) ≤ |g.xll| / g.csz := div_nonneg (abs_nonneg _) hcsz.le
+  have hcol : ((colOf g.ncols c : Int) : α) + 1 ≤ (g.ncols : α) := by exact_mod_cast (by omega : colOf g.ncols c + 1 ≤ g.ncols)
+  have hrow : (((g.nrows - 1 - rowOf g.ncols c : Int)) : α) + 1 ≤ (g.nrows : α) := by
+    exact_mod_cast (by omega : g.nrows - 1 - rowOf g.ncols c + 1 ≤ g.nrows)
+  have fx := axis_roundtrip hr hu (ll := g.xll) hcsz hc0 (by
+    have : rtBudget u * (|g.xll| / g.csz + (colOf g.ncols c : α) + 1 / 2)
+        ≤ rtBudget u * (|g.xll| / g.csz + (g.ncols : α)) := mul_le_mul_of_nonneg_left (by linarith) hB
+    linarith)
+  have fy := axis_roundtrip hr hu (ll := g.yll) hcsz (by omega : 0 ≤ g.nrows - 1 - rowOf g.ncols c) (by
+    have : rtBudget u * (|g.yll| / g.csz + ((g.nrows - 1 - rowOf g.ncols c : Int) : α) + 1 / 2)
+        ≤ rtBudget u * (|g.yll| / g.csz + (g.nrows : α)) := mul_le_mul_of_nonneg_left (by linarith) hB
+    linarith)
+  unfold coord2cellR quotientsR getcoordR
+  rw [cellOfQuot_eq]
+  simp only
+  rw [fx, fy]
+  have e : g.nrows - 1 - (g.nrows - 1 - rowOf g.ncols c) = rowOf g.ncols c := by omega
+  rw [e, cellOfNxNy_in ⟨hc0, hc1, hr0, hr1⟩, hidx]
+
+/-- order survives rounding: for any monotone rounding operator (IEEE rounding is monotone) and a non-negative cell
+size the computed centres are monotone in the index — `xvalues` never decreases with the column, `yvalues` never
+increases with the row, whatever the rounding errors -/
+theorem centreR_mono {rnd : α → α} (hm : Monotone rnd) {ll csz : α} (hcsz : 0 ≤ csz) {j k : Int} (h : j ≤ k) :
+    centreR rnd ll csz j ≤ centreR rnd ll csz k := by
+  unfold centreR
+  apply hm
+  have h1 : rnd (Trunc.ofInt j + half) ≤ rnd (Trunc.ofInt k + half) := by
+    apply hm
+    have : (j : α) ≤ (k : α) := by exact_mod_cast h
+    simpa using this
+  have h2 := hm (mul_le_mul_of_nonneg_left h1 hcsz)
+  linarith
+
+/-- the rounding the driver executes on exact rationals (nearest, ties to even, 53 bits) satisfies the standard
+model with `u = 2^-53` -/
+theorem round53_standard_model (t : ℚ) : |round53 t - t| ≤ 1 / 2 ^ 53 * |t| := round53_err t
+
+/-! ### 13. the grid object as a state machine: histories -/
+
+section Machine
+variable {β : Type} [Add β] [Sub β] [Mul β] [Div β] [OfNat β 0] [OfNat β 1] [LE β] [DecidableLE β] [LT β]
+  [DecidableLT β] [Trunc β] [FloorNum β]
+
+/-- with the identity as rounding operator the rounded kernel is the kernel, over any numeric type: at `Float` the
+operations round themselves, and this instance is what the driver runs against the code -/
+theorem coord2cellR_id (g : Geom β) (x y : β) : coord2cellR (fun t => t) g x y = coord2cellK g x y := rfl
+
+/-- the same for the centres -/
+theorem cell2coordR_id (g : Geom β) (c : Int) : cell2coordR (fun t => t) g c = cell2coord g c := rfl
+
+/-- a call — answered or rejected — and `clone` leave the attributes as they were (any numeric type, `Float` included) -/
+theorem step_keeps_state (g : Geom β) (o : Op β) (h : o.isMutator = false) : (step g o).1 = g := by
+  cases o <;> first | rfl | (simp [Op.isMutator] at h)
+
+/-- the attributes after a history are those after its attribute assignments alone -/
+theorem finalGeom_eq_mutators (g : Geom β) (ops : List (Op β)) :
+    finalGeom g ops = finalGeom g (ops.filter Op.isMutator) := by
+  induction ops generalizing g with
+  | nil => rfl
+  | cons o os ih =>
+    cases h : o.isMutator
+    · rw [List.filter_cons_of_neg (by simp [h])]
+      show finalGeom (step g o).1 os = _
+      rw [step_keeps_state g o h]; exact ih g
+    · rw [List.filter_cons_of_pos h]
+      show finalGeom (step g o).1 os = finalGeom (step g o).1 _
+      exact ih _
+
+/-- answer number `i` of a history is the answer a *fresh* object gives to operation `i` when it has the attributes
+produced by the assignments before `i`: no earlier call, rejected call or copy, and nothing later, has any part in it -/
+theorem run_answer (g : Geom β) (ops : List (Op β)) (i : Nat) :
+    (run g ops)[i]? = ops[i]?.map fun o => (step (finalGeom g ((ops.take i).filter Op.isMutator)) o).2 := by
+  rw [← finalGeom_eq_mutators]
+  induction ops generalizing g i with
+  | nil => simp [run]
+  | cons o os ih =>
+    cases i with
+    | zero => simp [run, finalGeom]
+    | succ i =>
+      simp only [run, List.getElem?_cons_succ, List.take_succ_cons, finalGeom]
+      exact ih _ i
+
+/-- histories compose: the answers of `a ++ b` are those of `a`, then those of `b` on the attributes `a` left -/
+theorem run_append (g : Geom β) (a b : List (Op β)) : run g (a ++ b) = run g a ++ run (finalGeom g a) b := by
+  induction a generalizing g with
+  | nil => rfl
+  | cons o os ih => simp [run, finalGeom, ih]
+
+/-- one answer per operation -/
+theorem run_length (g : Geom β) (ops : List (Op β)) : (run g ops).length = ops.length := by
+  induction ops generalizing g with
+  | nil => rfl
+  | cons o os ih => simp [run, ih]
+
+/-- a rejected `neighbours` call answers with the error and leaves the object unchanged, after any history -/
+theorem history_rejected (g : Geom β) (ops : List (Op β)) (c : Int)
+    (h : validCell (finalGeom g ops).nrows (finalGeom g ops).ncols c = false) :
+    (run g (ops ++ [.nb c]))[ops.length]? = some (.nb (.error .badCell)) ∧
+      finalGeom g (ops ++ [.nb c]) = finalGeom g ops := by
+  constructor
+  · rw [run_answer, ← finalGeom_eq_mutators]
+    simp [step, cNeighbours, h]
+  · rw [finalGeom_eq_mutators, finalGeom_eq_mutators g ops]
+    simp [Op.isMutator]
+
+end Machine
+
+/-- **round trip after any history**: whatever was done to the object before — attribute re-assignments, calls,
+rejected calls, copies — `cell2coord [c]` followed by `coord2cell` of its answer gives `[c]`, for every cell that is
+valid for the attributes of that moment (cell size and ncols positive at that moment); the earlier answers are
+what they were -/
+theorem history_roundtrip (g : Geom α) (ops : List (Op α)) {c : Int}
+    (hcsz : 0 < (finalGeom g ops).csz) (hc : 0 < (finalGeom g ops).ncols)
+    (hv : validCell (finalGeom g ops).nrows (finalGeom g ops).ncols c = true) :
+    ∃ x y, run g (ops ++ [.c2c [c], .xy2c [(x, y)]]) = run g ops ++ [.coords [some (x, y)], .cells [c]] := by
+  obtain ⟨x, y, h1, h2⟩ := coord2cellK_cell2coord hcsz hc hv
+  refine ⟨x, y, ?_⟩
+  rw [run_append]
+  simp [run, step, gridCell2coord, gridCoord2cell, h1, h2]
+
+/-! ### 14. the constructor: defaults, its guard, and the hypothesis `0 < ncols` discharged -/
+
+/-- `Grid(name, n)`: the square grid of unit cells with its lower-left corner at the origin -/
+theorem mkGrid_default {n : Int} (hn : 0 ≤ n) :
+    mkGrid (α := α) n none none none none = .ok ⟨n, n, 0, 0, 1⟩ := by
+  unfold mkGrid
+  simp [not_lt.2 hn]
+
+/-- the constructor refuses exactly the negative dimensions, and otherwise stores what it was given -/
+theorem mkGrid_ok_iff {ncols : Int} {nrows : Option Int} {csz xll yll : Option α} {g : Geom α} :
+    mkGrid ncols nrows csz xll yll = .ok g ↔
+      (0 ≤ ncols ∧ 0 ≤ nrows.getD ncols ∧
+        g = ⟨nrows.getD ncols, ncols, xll.getD 0, yll.getD 0, csz.getD 1⟩) := by
+  unfold mkGrid
+  cases nrows <;> cases csz <;> cases xll <;> cases yll <;> simp only [Option.getD] <;>
+    (split
+     · rename_i h; constructor
+       · intro h'; cases h'
+       · rintro ⟨a, b, -⟩; omega
+     · rename_i h; constructor
+       · intro h'; injection h' with h'; exact ⟨by omega, by omega, h'.symm⟩
+       · rintro ⟨-, -, rfl⟩; rfl)
+
+/-- on a constructed grid the existence of a valid cell gives `0 < ncols` and `0 < nrows`: the standing hypothesis
+of the theorems follows from the constructor's own guard -/
+theorem mkGrid_valid_pos {ncols : Int} {nrows : Option Int} {csz xll yll : Option α} {g : Geom α}
+    (hg : mkGrid ncols nrows csz xll yll = .ok g) {c : Int} (hv : validCell g.nrows g.ncols c = true) :
+    0 < g.ncols ∧ 0 < g.nrows := by
+  obtain ⟨h1, h2, rfl⟩ := mkGrid_ok_iff.1 hg
+  simp only at hv ⊢
+  obtain ⟨a, b⟩ := validCell_iff.1 hv
+  have hne := validCell_ncols_ne_zero hv
+  have hc : 0 < ncols := by omega
+  refine ⟨hc, ?_⟩
+  by_contra hn
+  have : nrows.getD ncols = 0 := by omega
+  rw [this] at b
+  omega
+
+/-- round trip on every constructed grid with a positive cell size — no hypothesis on the number of columns -/
+theorem constructed_roundtrip {ncols : Int} {nrows : Option Int} {csz xll yll : Option α} {g : Geom α}
+    (hg : mkGrid ncols nrows csz xll yll = .ok g) (hcsz : 0 < g.csz) {c : Int}
+    (hv : validCell g.nrows g.ncols c = true) :
+    ∃ x y, cell2coord g c = some (x, y) ∧ coord2cellK g x y = c :=
+  coord2cellK_cell2coord hcsz (mkGrid_valid_pos hg hv).1 hv
+
+/-! ### 15. the hypotheses are needed (and how far they can be weakened) -/
+
+/-- `0 < ncols` cannot be dropped: attributes can be re-assigned to a pair of negative numbers whose product is
+positive; cell 4 then passes the guard and gets row -1 -/
+theorem ncols_pos_needed :
+    ∃ nrows ncols c : Int, validCell nrows ncols c = true ∧ (cell2rowcol nrows ncols c).1 < 0 :=
+  ⟨-2, -3, 4, by decide, by decide⟩
+
+/-- the round trip needs only `csz ≠ 0` (a negative cell size mirrors the grid; the centre still maps back) -/
+theorem coord2cell_cell2coord_of_ne_zero {g : Geom α} (hcsz : g.csz ≠ 0) (hc : 0 < g.ncols) {c : Int}
+    (hv : validCell g.nrows g.ncols c = true) :
+    ∃ x y, cell2coord g c = some (x, y) ∧ coord2cellK g x y = c := by
+  obtain ⟨hr0, hr1, hc0, hc1, hidx⟩ := valid_rowcol hc hv
+  refine ⟨_, _, cell2coord_eq hv, ?_⟩
+  rw [coord2cellK_eq]
+  unfold coord2cell
+  simp only [floorToInt_eq]
+  have e1 : (g.xll + g.csz * ((colOf g.ncols c : α) + 1 / 2) - g.xll) / g.csz = (colOf g.ncols c : α) + 1 / 2 := by
+    field_simp; ring
+  have e2 : (g.yll + g.csz * (((g.nrows - 1 - rowOf g.ncols c : Int) : α) + 1 / 2) - g.yll) / g.csz
+      = ((g.nrows - 1 - rowOf g.ncols c : Int) : α) + 1 / 2 := by
+    field_simp; ring
+  have f : ∀ k : Int, ⌊(k : α) + 1 / 2⌋ = k := by
+    intro k
+    rw [Int.floor_eq_iff]
+    constructor <;> norm_num
+  rw [e1, e2, f, f]
+  have e : g.nrows - 1 - (g.nrows - 1 - rowOf g.ncols c) = rowOf g.ncols c := by omega
+  rw [e, cellOfNxNy_in ⟨hc0, hc1, hr0, hr1⟩, hidx]
+
+/-- `0 < csz` cannot be dropped from the outside clause: with a negative cell size a point left of `xll` gets a cell -/
+theorem csz_pos_needed :
+    ∃ (g : Geom α) (x y : α), g.csz ≠ 0 ∧ 0 < g.ncols ∧ x < g.xll ∧
+      validCell g.nrows g.ncols (coord2cell g x y) = true := by
+  refine ⟨⟨1, 1, 0, 0, -1⟩, -1 / 2, -1 / 2, by norm_num, by norm_num, by norm_num, ?_⟩
+  have h : coord2cell (⟨1, 1, 0, 0, -1⟩ : Geom α) (-1 / 2) (-1 / 2) = 0 := by
+    unfold coord2cell
+    simp only [floorToInt_eq]
+    have : ⌊((-1 / 2 : α) - 0) / -1⌋ = 0 := by
+      rw [Int.floor_eq_iff]; norm_num
+    rw [this]
+    decide
+  rw [h]
+  show validCell 1 1 0 = true
+  decide
+
+/-! ### 16. request shapes -/
+
+/-- the wrappers answer a request exactly when its shape is a scalar or one-dimensional (cells), respectively a pair
+or an `[n, 2]` array (points); then the answer is the element-wise one on the flat content; any other shape is a
+`ValueError` and no cell / coordinate is produced -/
+theorem request_shapes (g : Geom α) (shape : List Nat) (cells : List Int) (data : List α) :
+    (gridCell2rowcolReq g.nrows g.ncols shape cells =
+      if shape.length ≤ 1 then .ok (gridCell2rowcol g.nrows g.ncols cells) else .error .valueError) ∧
+    (gridCell2coordReq g shape cells =
+      if shape.length ≤ 1 then .ok (gridCell2coord g cells) else .error .valueError) ∧
+    (gridCoord2cellReq g shape data =
+      if (shape.length = 1 ∨ shape.length = 2) ∧ shape.getLast? = some 2
+      then .ok (gridCoord2cell g (pairUp data)) else .error .valueError) := by
+  refine ⟨?_, ?_, ?_⟩
+  · unfold gridCell2rowcolReq cellsRequestLen
+    match shape with
+    | [] => simp
+    | [_] => simp
+    | _ :: _ :: _ => simp
+  · unfold gridCell2coordReq cellsRequestLen
+    match shape with
+    | [] => simp
+    | [_] => simp
+    | _ :: _ :: _ => simp
+  · unfold gridCoord2cellReq pointsRequestLen
+    match shape with
+    | [] => simp
+    | [k] => by_cases h : k = 2 <;> simp [h]
+    | [n, k] => by_cases h : k = 2 <;> simp [h]
+    | _ :: _ :: _ :: _ => simp
+
 /-! ### non-vacuity: the hypotheses are met by concrete grids (these are tests, not theorems) -/
 
 /-- a 2 x 3 grid over ℚ with cell size 1/2 and a negative origin -/
@@ -665,6 +996,105 @@ example : cellOfQuot exGeom.nrows exGeom.ncols ((-1 / 2 : ℚ) + 1 / 2000) (1 / 
   · norm_num [exGeom]
 local instance (priority := high) exTrunc : Trunc ℚ := fieldTrunc
 local instance (priority := high) exFloor : FloorNum ℚ := fieldFloor
+
+/-! ### 17. doubles: the rounded kernels on exact rationals with `round53` (what the driver executes and the harness
+compares exactly with the code), with the numbers of the property's quantifier -/
+
+/-- **inside clause for doubles**: with IEEE rounding (`round53`) of every arithmetic result, a point at least
+`1e-9` cell sizes inside the footprint of a valid cell, at most `2^21` cell sizes from the lower-left corner, is
+mapped to that cell -/
+theorem coord2cell_double_inside {g : Geom ℚ} (hcsz : 0 < g.csz) (hc : 0 < g.ncols) {c : Int}
+    (hv : validCell g.nrows g.ncols c = true) {x y : ℚ}
+    (hqx : |(quotients g x y).1| ≤ 2 ^ 21) (hqy : |(quotients g x y).2| ≤ 2 ^ 21)
+    (hin : cellLeft g c + 1 / 10 ^ 9 * g.csz ≤ x ∧ x + 1 / 10 ^ 9 * g.csz < cellRight g c ∧
+      cellBottom g c + 1 / 10 ^ 9 * g.csz ≤ y ∧ y + 1 / 10 ^ 9 * g.csz < cellTop g c) :
+    coord2cellR round53 g x y = c := by
+  have hb : (0 : ℚ) ≤ quotBudget (1 / 2 ^ 53) := quotBudget_nonneg (by positivity)
+  have hn : quotBudget ((1 : ℚ) / 2 ^ 53) * 2 ^ 21 ≤ 1 / 10 ^ 9 := by norm_num [quotBudget]
+  exact coord2cellR_inside round53_relErr (by positivity) hcsz hc hv
+    ((mul_le_mul_of_nonneg_left hqx hb).trans hn) ((mul_le_mul_of_nonneg_left hqy hb).trans hn) hin
+
+/-- **outside clause for doubles**: a point at least `1e-9` cell sizes outside the extent on any side, at most
+`2^21` cell sizes from the lower-left corner, is mapped to `-1` -/
+theorem coord2cell_double_outside {g : Geom ℚ} (hcsz : 0 < g.csz) {x y : ℚ}
+    (hqx : |(quotients g x y).1| ≤ 2 ^ 21) (hqy : |(quotients g x y).2| ≤ 2 ^ 21)
+    (hout : x + 1 / 10 ^ 9 * g.csz < g.xll ∨ g.xll + (g.ncols : ℚ) * g.csz + 1 / 10 ^ 9 * g.csz ≤ x ∨
+      y + 1 / 10 ^ 9 * g.csz < g.yll ∨ g.yll + (g.nrows : ℚ) * g.csz + 1 / 10 ^ 9 * g.csz ≤ y) :
+    coord2cellR round53 g x y = -1 := by
+  have hb : (0 : ℚ) ≤ quotBudget (1 / 2 ^ 53) := quotBudget_nonneg (by positivity)
+  have hn : quotBudget ((1 : ℚ) / 2 ^ 53) * 2 ^ 21 ≤ 1 / 10 ^ 9 := by norm_num [quotBudget]
+  exact coord2cellR_outside round53_relErr (by positivity) hcsz
+    ((mul_le_mul_of_nonneg_left hqx hb).trans hn) ((mul_le_mul_of_nonneg_left hqy hb).trans hn) hout
+
+/-- **round trip for doubles**: `coord2cell(cell2coord c) = c` with IEEE rounding of every arithmetic result of both
+kernels, for every grid with `|xll|/csz + ncols ≤ 2^48` and `|yll|/csz + nrows ≤ 2^48` (the property's quantifier:
+origins up to `1e4` cell sizes from zero; any allocatable grid) -/
+theorem roundtrip_double {g : Geom ℚ} (hcsz : 0 < g.csz) (hc : 0 < g.ncols) {c : Int}
+    (hv : validCell g.nrows g.ncols c = true)
+    (hX : |g.xll| / g.csz + (g.ncols : ℚ) ≤ 2 ^ 48) (hY : |g.yll| / g.csz + (g.nrows : ℚ) ≤ 2 ^ 48) :
+    ∃ x y, cell2coordR round53 g c = some (x, y) ∧ coord2cellR round53 g x y = c := by
+  have hb : (0 : ℚ) ≤ rtBudget (1 / 2 ^ 53) := rtBudget_nonneg (by positivity)
+  have hn : rtBudget ((1 : ℚ) / 2 ^ 53) * 2 ^ 48 < 1 / 2 := by norm_num [rtBudget, centreBudget, quotBudget]
+  exact roundtripR round53_relErr (by positivity) hcsz hc hv
+    (lt_of_le_of_lt (mul_le_mul_of_nonneg_left hX hb) hn) (lt_of_le_of_lt (mul_le_mul_of_nonneg_left hY hb) hn)
+
+/-! non-vacuity of sections 12-17 -/
+
+/-- the rounded theorems on the 2 x 3 grid: point 1/5 of a cell inside cell 4; a point 1/4 of a cell left of the
+extent; the round trip of cell 4 -/
+example : coord2cellR round53 exGeom (-29 / 10) (101 / 10) = 4 := by
+  have h1 : colOf exGeom.ncols 4 = 1 := by decide
+  have h2 : rowUp exGeom 4 = 0 := by decide
+  refine coord2cell_double_inside (by norm_num [exGeom]) (by decide) (by decide) ?_ ?_ ?_
+  · norm_num [quotients, exGeom, abs_le]
+  · norm_num [quotients, exGeom, abs_le]
+  · unfold cellLeft cellRight cellBottom cellTop
+    rw [h1, h2]
+    norm_num [exGeom]
+example : coord2cellR round53 exGeom (-15 / 4) (41 / 4) = -1 := by
+  refine coord2cell_double_outside (by norm_num [exGeom]) ?_ ?_ (Or.inl (by norm_num [exGeom]))
+  · norm_num [quotients, exGeom, abs_le]
+  · norm_num [quotients, exGeom, abs_le]
+example : ∃ x y, cell2coordR round53 exGeom 4 = some (x, y) ∧ coord2cellR round53 exGeom x y = 4 :=
+  roundtrip_double (by norm_num [exGeom]) (by decide) (by decide)
+    (by norm_num [exGeom, abs_of_neg]) (by norm_num [exGeom])
+example : centreR (fun t : ℚ => t) exGeom.xll exGeom.csz 1 ≤ centreR (fun t : ℚ => t) exGeom.xll exGeom.csz 2 :=
+  centreR_mono (fun _ _ h => h) (by norm_num [exGeom]) (by decide)
+/-- a history on the 2 x 3 grid: use it, transpose it (3 x 2), reject a call, copy it — then the round trip of cell 5 -/
+def exOps : List (Op ℚ) := [.rowcol [0, 7], .setNrows 3, .setNcols 2, .nb 6, .clone, .setCsz 2]
+example : (finalGeom exGeom exOps).nrows = 3 ∧ (finalGeom exGeom exOps).ncols = 2 ∧ (finalGeom exGeom exOps).csz = 2 :=
+  ⟨rfl, rfl, rfl⟩
+example : ∃ x y, run exGeom (exOps ++ [.c2c [5], .xy2c [(x, y)]]) = run exGeom exOps ++ [.coords [some (x, y)], .cells [5]] :=
+  history_roundtrip exGeom exOps (by norm_num [exOps, finalGeom, step, exGeom]) (by decide) (by decide)
+example : (run exGeom exOps)[3]? = some (.nb (.error .badCell)) := by
+  rw [run_answer]; rfl
+example : ∃ x' y' x y, cell2coordR round53 exGeom 4 = some (x', y') ∧ cell2coord exGeom 4 = some (x, y) ∧
+    |x' - x| ≤ centreBudget (1 / 2 ^ 53) * (|exGeom.xll| + |exGeom.csz| * |((colOf exGeom.ncols 4 : Int) : ℚ) + 1 / 2|) ∧
+    |y' - y| ≤ centreBudget (1 / 2 ^ 53) *
+      (|exGeom.yll| + |exGeom.csz| * |((exGeom.nrows - 1 - rowOf exGeom.ncols 4 : Int) : ℚ) + 1 / 2|) :=
+  cell2coordR_error round53_relErr (by positivity) (by decide)
+/-- a rejected call after the history: cell 7 does not exist on the 3 x 2 grid the history leaves -/
+example : (run exGeom (exOps ++ [.nb 7]))[exOps.length]? = some (.nb (.error .badCell)) ∧
+    finalGeom exGeom (exOps ++ [.nb 7]) = finalGeom exGeom exOps :=
+  history_rejected exGeom exOps 7 (by decide)
+example : (step exGeom (.nb 6 : Op ℚ)).1 = exGeom := step_keeps_state exGeom _ rfl
+/-- the round trip with a NEGATIVE cell size (mirrored grid) -/
+example : ∃ x y, cell2coord (⟨2, 3, 0, 0, -1 / 2⟩ : Geom ℚ) 4 = some (x, y) ∧ coord2cellK (⟨2, 3, 0, 0, -1 / 2⟩ : Geom ℚ) x y = 4 :=
+  coord2cell_cell2coord_of_ne_zero (by norm_num) (by decide) (by decide)
+example : ∃ x y, cell2coord exGeom 4 = some (x, y) ∧ coord2cellK exGeom x y = 4 :=
+  constructed_roundtrip (α := ℚ) (ncols := 3) (nrows := some 2) (csz := some (1 / 2)) (xll := some (-7 / 2)) (yll := some 10)
+    rfl (by norm_num [exGeom]) (by decide)
+/-- constructor: defaults, the guard, and a constructed grid with a valid cell -/
+example : mkGrid (α := ℚ) 3 none none none none = .ok ⟨3, 3, 0, 0, 1⟩ := mkGrid_default (by decide)
+example : mkGrid (α := ℚ) 3 (some (-1)) none none none = .error .valueError := rfl
+example : mkGrid (α := ℚ) 3 (some 2) (some (1 / 2)) (some (-7 / 2)) (some 10) = .ok exGeom := rfl
+example : 0 < exGeom.ncols ∧ 0 < exGeom.nrows :=
+  mkGrid_valid_pos (α := ℚ) (ncols := 3) (nrows := some 2) (csz := some (1 / 2)) (xll := some (-7 / 2)) (yll := some 10)
+    rfl (c := 4) (by decide)
+/-- request shapes: a pair is one point, a triple is refused, `[2, 2]` is two points; cells: `[2, 1]` is refused -/
+example : pointsRequestLen [2] = .ok 1 ∧ pointsRequestLen [3] = .error .valueError ∧ pointsRequestLen [2, 2] = .ok 2 ∧
+    pointsRequestLen [] = .error .valueError ∧ cellsRequestLen [] = .ok 1 ∧ cellsRequestLen [2, 1] = .error .valueError := by
+  decide
 example : coord2cellK exGeom (-29 / 10) (101 / 10) = 4 ∧ coord2cellK exGeom (-15 / 4) (41 / 4) = -1 := by
   have hcsz : (0 : ℚ) < exGeom.csz := by norm_num [exGeom]
   refine ⟨(coord2cellK_eq_iff hcsz (by decide) (by decide)).2 ?_,
